@@ -647,6 +647,7 @@ func ruleC18(c *Check) {
 	c.clientContextRecovery("C18.10")
 	c.idInputsPresent("C18.11")
 	c.createRejectsBeforeStore("C18.12")
+	c.addressRoles("C18.13")
 	// records of different roles live under different keys: a queue entry is always written and removed together with
 	// the per-context record of its own queue (a builder of the sibling queue would make two records one store entry)
 	c.queuePairs("C18")
